@@ -317,7 +317,9 @@ func (ps *pipeStreams) replayX(chunks []int, readBuf int, cutAt int, cutErr erro
 			// the transport has not failed: the caller's deadline expired. It
 			// is extended and the rest of the stream arrives.
 			sc.CutAt = -1
-			for i := 0; i < 1<<16; i++ {
+			// (bounded by the input, not by a count of calls: with one-octet
+			// buffers a stream takes as many reads as it has octets)
+			for i := 0; i < 64+4*len(ps.c); i++ {
 				n, err := conn.Read(buf)
 				pr.resumed = append(pr.resumed, buf[:n]...)
 				if err != nil {
